@@ -5,30 +5,41 @@ SPEC = dict(
     allowed_axioms=[],
     level_text=("Machine-checked theorems (Coq) over an executable model of the bridge node's three ingest paths - the Listener "
                 "(dedup by store, fetch from the announcing endpoint, historic drop, sync query, chain-id panic, storeEDS, broadcasts), "
-                "Exchange.GetByHeight and full.ShareAvailability.SharesAvailable (window gate, empty block, already-stored shortcut, getter "
+                "Exchange.GetByHeight, Exchange.Get (header by hash: the served block is kept only when its header hash is the requested one) "
+                "and full.ShareAvailability.SharesAvailable (window gate, empty block, already-stored shortcut, getter "
                 "error mapping) - over a store that never rebinds a height. Proved by invariant induction over EVERY history of operations "
                 "with every failure pattern (failures are oracle values): published once, stored DAH = published header's DAH, everything "
-                "stored has a published or given header, window / Q4 policy, failed operations change nothing, every obtained in-window "
+                "stored has a published or given header, window / Q4 policy, failed operations change nothing (a by-hash request answered "
+                "with a block of another hash is one: C15_hash_mismatch_leaves_nothing), every obtained in-window "
                 "block ends up stored and published; on one chain every successfully given header is stored with its DAH. The model is "
                 "re-validated on every run against the real Listener + MultiSource + Exchange + BlockFetcher + ShareAvailability + store on "
-                "~200 histories (~4000 operations) with real signed blocks and squares."),
+                "~200 histories (~4000 operations) with real signed blocks and squares; all four operation kinds (core, avail, xchg, xhash) "
+                "are in the Coq model and the L2 cases - nothing is L3-only."),
     rule=("a history = 3..8 heights with their own squares (random transactions, real PayForBlobs transactions, empty blocks), block times "
-          "a minute old or 9 days old, 8% inconsistent data hashes, 5% unbuildable squares; 1..4 endpoints announcing with gaps, immediate "
+          "a minute old, availability.StorageWindow + 48h old, or (30% of the in-window blocks) at the EDGE: 30 minutes inside "
+          "availability.StorageWindow (the constant is read from the code under test; an edge block is in-window for every ingest path; "
+          "the time is taken when the block is built, inside the operation that uses it, so the 30 min margin covers milliseconds), 8% inconsistent data hashes, 5% unbuildable squares; 1..4 endpoints announcing with gaps, immediate "
           "duplicates, replays of old heights, shuffled order, merged at random; per announcement: fetch failure 15%, status failure 10%, "
           "syncing 25%, store failure 10% (a non-empty directory at the square's file path), wrong chain 1%, previous block served 2%; "
           "interleaved availability checks (getter: square, not found, deadline, cancelled, byzantine, byzantine+deadline, "
-          "byzantine+not found, other; store failure) and exchange requests on the same store; pruned and archival nodes. 75% of the "
+          "byzantine+not found, other; store failure), exchange requests by height and header requests BY HASH (Exchange.Get over the "
+          "scripted BlockByHash / Commit / ValidatorSet client: the requested block 60%, a block with another hash 40% - another block "
+          "of the history, or that height with the square of another height -, fetch failure 12%, commit query failure 8%, store "
+          "failure 10%, wrong chain 2%) on the same store; two deterministic histories (pruned, archival) run every ingest path on edge "
+          "blocks incl. a mismatching by-hash answer before the announcement of that height; pruned and archival nodes. 75% of the "
           "histories call handleNewBlockEvent directly, 25% go through Listener.Start and the real subscription fan-in. A history is "
           "non-trivial when it has at least two operations; distinct = distinct Coq case term."),
     trusted_base=[
         "model Core/Listener.v hand-written after core/listener.go, core/eds.go, core/exchange.go, share/availability/full/availability.go "
         "and the observable behaviour of store.put; tied by the correspondence harness harness/core/zz_verif_c15_test.go whose observed "
         "per-operation outcomes, final store (height, DAH, has Q4), broadcasts and notifications are re-computed by the model inside Coq",
-        "mocked: consensus endpoints (scripted leaves of the REAL MultiSource), the gRPC BlockAPI client under the REAL BlockFetcher / "
-        "Exchange, the shwap getter, header and hash broadcasters (capturing); real: Listener, MultiSource, Exchange, BlockFetcher block "
+        "mocked: consensus endpoints (scripted leaves of the REAL MultiSource), the gRPC BlockAPI client (BlockByHeight, BlockByHash, Commit, "
+        "ValidatorSet) under the REAL BlockFetcher / Exchange (GetByHeight and Get; no p2p fallback exchange configured), the shwap getter, header and hash broadcasters (capturing); real: Listener, MultiSource, Exchange, BlockFetcher block "
         "reassembly, ShareAvailability, store on a temp dir, da.ConstructEDS, header.MakeExtendedHeader, signed blocks",
-        "block time vs window is one oracle value per block: generated times are a minute or nine days old, never near the window boundary "
-        "(the code reads the clock three times per block); store.HasByHeight failures are modelled but cannot be provoked on the real store",
+        "block time vs window is one oracle value per block: generated times are a minute old, StorageWindow + 48h old, or 30 minutes inside "
+        "StorageWindow (never closer to the boundary: the code reads the clock up to three times per block, all within one operation); L3 "
+        "additionally demands that an availability check never refuses such a header as outside the window and that the parity quadrant is "
+        "kept for it; store.HasByHeight failures are modelled but cannot be provoked on the real store",
         "squares and headers are identified by their DAH hash (interned atoms); that the getter returns the square committed by the header "
         "is the getter's contract (C06) - the scripted getter is honest on success",
         "theorems about publication assume endpoints answer a request for height h with the block of height h (well_served); the harness "
